@@ -57,7 +57,9 @@ func vcyc(value, n int) int {
 //@   requires value >= 0
 //@   ensures len(symbols) < 2 ==> !result1
 //@   ensures len(symbols) >= 2 ==> result1
+//@   ensures[first-cycle] len(symbols) >= 2 && 1 <= value && value <= len(symbols) ==> result0 == symbol(symbols[value-1])
 //@   loop 1 invariant value >= 0 && L == len(symbols) && L >= 2 && fresh(reversedParts)
+//@   loop 1 invariant[first-cycle] 1 <= old(value) && old(value) <= L ==> (value == old(value) && len(reversedParts) == 0) || (value == 0 && len(reversedParts) == 1 && reversedParts[0] == symbol(symbols[old(value)-1]))
 //@   loop 1 decreases value
 
 //@ func numeric
@@ -66,7 +68,9 @@ func vcyc(value, n int) int {
 //@   requires len(symbols) >= 1
 //@   ensures len(symbols) < 2 && value != 0 ==> !result1
 //@   ensures value == 0 ==> result1 && result0 == symbol(symbols[0])
+//@   ensures[one-digit] len(symbols) >= 2 && 0 < value && value < len(symbols) ==> result1 && result0 == symbol(symbols[value])
 //@   loop 1 invariant value >= 0 && L == len(symbols) && L >= 2 && fresh(reversedParts)
+//@   loop 1 invariant[one-digit] 0 < old(value) && old(value) < L ==> (value == old(value) && len(reversedParts) == 0) || (value == 0 && len(reversedParts) == 1 && reversedParts[0] == symbol(symbols[old(value)]))
 //@   loop 1 decreases value
 
 // additive: weights are non-negative and strictly decreasing (established by the
